@@ -7,7 +7,7 @@
    the reply is  (miss (input ...))  and the harness retries with a larger
    table.  With "raw" encodings the table is unused. *)
 From Coq Require Import NArith ZArith List Bool String.
-From NGS Require Import Val Ints Morton ShardBytes MiniShard ShardFile ShardReader ShardSpecReader.
+From NGS Require Import Val Ints Morton ShardBytes MiniShard ShardFile ShardReader ShardSpecReader ShardSession.
 Import ListNotations.
 Open Scope string_scope.
 
@@ -197,6 +197,68 @@ Definition v_mini (st : mini) : val :=
       vNs (akeys (ms_pend st));
       match ms_mask st with Some x => vN x | None => VT "none" end].
 
+(* ---------- accessor-level sessions (several scales, repeated close) ---------- *)
+Definition get_sops (v : val) : option (list sop) :=
+  match v with
+  | VL l => all_some (map (fun e => match e with
+                                    | VL [VT _; k; VZ x; VZ y; VZ z; VS b] =>
+                                        match getN k with Some k => Some (SStore k x y z b) | None => None end
+                                    | VT _ => Some SClose
+                                    | _ => None end) l)
+  | _ => None
+  end.
+
+(* ((key chunk_sizes sizes) ...) : the scales of the info file *)
+Definition get_scales (v : val) : option (list (N * (list Z * list Z))) :=
+  match v with
+  | VL l => all_some (map (fun e => match e with
+                                    | VL [k; cs; sz] =>
+                                        match getN k, getZs cs, getZs sz with
+                                        | Some k, Some cs, Some sz => Some (k, (cs, sz))
+                                        | _, _, _ => None end
+                                    | _ => None end) l)
+  | _ => None
+  end.
+
+Definition cfg_of (sp : sparams) (scales : list (N * (list Z * list Z))) (k : N) : option (vspec * sparams) :=
+  match alookup k scales with
+  | Some (cs, sz) => match mk_vspec cs sz with Ok v => Some (v, sp) | _ => None end
+  | None => None
+  end.
+
+Definition v_sout (o : sout) : val :=
+  match o with
+  | SOut o => v_outcome (fun _ => VT "none") o
+  | SAttrErr => VL [VT "Crash"; VT "AttributeError"]
+  end.
+
+(* inputs of the index encoder: the (offset-patched) headers of all minishards *)
+Definition sess_index_raws (st : sess) : list bytes :=
+  flat_map (fun kw => flat_map (fun ksh => flat_map (fun km =>
+     match index_bytes (ms_hdr (snd km)) with Ok b => [b] | _ => [] end) (sh_minis (snd ksh)))
+     (ws_scale (snd kw))) (se_scales st).
+
+Definition sop_payloads (ops : list sop) : list bytes :=
+  flat_map (fun o => match o with SStore _ _ _ _ b => [b] | SClose => [] end) ops.
+
+Definition run_sess (c : cfg) (t : gz_table) (scales : list (N * (list Z * list Z))) (ops : list sop) : val :=
+  let m1 := if c_dgz c then missing t (sop_payloads ops) else [] in
+  match m1 with
+  | _ :: _ => v_miss m1
+  | [] =>
+      let denc := enc_of (c_dgz c) t in
+      let '(st0, _) := sess_run (cfg_of (c_sp c) scales) denc (fun b => b) sess_init ops in
+      let m2 := if c_igz c then missing t (sess_index_raws st0) else [] in
+      match m2 with
+      | _ :: _ => v_miss m2
+      | [] =>
+          let '(st, os) := sess_run (cfg_of (c_sp c) scales) denc (enc_of (c_igz c) t) sess_init ops in
+          VL [VT "ok"; VL (map v_sout os);
+              VL (map (fun kd => VL [vN (fst kd); VL (map (fun nb => VL [VS (fst nb); VS (snd nb)]) (snd kd))])
+                      (se_fs st))]
+      end
+  end.
+
 Definition d_c04 (op : string) (a : val) : option val :=
   match op, a with
   | "c04_run", VL [cs; sz; cf; tb; ops] =>
@@ -256,6 +318,10 @@ Definition d_c04 (op : string) (a : val) : option val :=
       match get_cfg cf, get_table tb, get_files files with
       | Some c, Some t, Some files => Some (VL (map (wf_one c t) files))
       | _, _, _ => Some bad end
+  | "c04_session", VL [cf; tb; scales; ops] =>
+      match get_cfg cf, get_table tb, get_scales scales, get_sops ops with
+      | Some c, Some t, Some scales, Some ops => Some (run_sess c t scales ops)
+      | _, _, _, _ => Some bad end
   | "c04_guard", VL [m; s; p; ids] =>
       match getN m, getN s, getN p, getNs ids with
       | Some m, Some s, Some p, Some ids =>
